@@ -1197,8 +1197,17 @@ fn main() {
 
     // vacuity
     let per_class = stats.per_class.lock().unwrap().clone();
-    let never_new: Vec<String> =
-        changed.lock().unwrap().iter().filter(|(_, (n, c))| *n > 0 && *c == 0).map(|(l, _)| l.clone()).collect();
+    // per command kind (over all workspaces and dirty patterns): a kind that never changed any state is vacuous
+    let never_new: Vec<String> = {
+        let ch = changed.lock().unwrap();
+        let mut per_cmd: BTreeMap<String, (u64, u64)> = BTreeMap::new();
+        for (k, v) in ch.iter() {
+            let e = per_cmd.entry(k.split('@').next().unwrap().to_string()).or_insert((0, 0));
+            e.0 += v.0;
+            e.1 += v.1;
+        }
+        per_cmd.iter().filter(|(_, (n, c))| *n > 0 && *c == 0).map(|(l, _)| l.clone()).collect()
+    };
     if !capped.load(Ordering::Relaxed) {
         if !never_new.is_empty() {
             vcommon::machinery_failure(&format!("vacuous: actions that never changed the state: {never_new:?}"));
@@ -1236,7 +1245,7 @@ fn main() {
     extra.insert("wall_cap_s".into(), json!(wall_cap));
     extra.insert("transitions_skipped_by_wall_cap".into(), json!(skipped.load(Ordering::Relaxed)));
     extra.insert("determinism_gate_histories_rebuilt_from_scratch".into(), json!(gate_checked));
-    extra.insert("actions_that_never_changed_the_state".into(), json!(never_new));
+    extra.insert("command_kinds_that_never_changed_the_state".into(), json!(never_new));
     extra.insert(
         "per_action_runs_and_state_changes".into(),
         json!(changed.lock().unwrap().iter().map(|(k, v)| (k.clone(), json!([v.0, v.1]))).collect::<BTreeMap<_, _>>()),
